@@ -872,7 +872,7 @@ func C20(tier string) int {
 	if tier != "thorough" {
 		tier = "quick"
 	}
-	o := runner.New("C20", tier, "exploration")
+	o := runner.New("C20", tier, "model_checking")
 	o.Assumptions = []string{
 		"the ICA controller keeper and the capability keeper are replaced by recording fakes that implement the interfaces of x/intertx/keeper/expected_keepers.go; what ibc-go does with the packet after SendTx is out of scope",
 		"messages reach the handler the way baseapp delivers them: ValidateBasic is run first and must pass for every case of the alphabet (owner is a valid bech32 address, msg is set) and the inner Any is unpacked (both an in-memory message and a marshal/unmarshal round trip through the ProtoCodec are exercised)",
